@@ -18,7 +18,7 @@ KINDS = ["stock", "future", "mixed", "t0", "noreinvest", "fail", "analyser"]
 
 
 def run_job(specs, switches, hashseed):
-    env = dict(os.environ, PYTHONPATH="/repo:" + HERE, PYTHONHASHSEED=str(hashseed))
+    env = dict(os.environ, PYTHONPATH=vlib.REPO + ":" + HERE, PYTHONHASHSEED=str(hashseed))
     p = subprocess.run(["/venv/bin/python", os.path.join(HERE, "iso_worker.py")], input=json.dumps({"specs": specs, "switches": switches}), capture_output=True, text=True, env=env, timeout=900)
     if p.returncode != 0:
         raise RuntimeError("iso_worker failed: " + p.stderr[-1500:])
